@@ -167,6 +167,13 @@ def helper_contains(h, pa, pb, helpers, depth):
         v = cs.sub
         if isinstance(v, ast.Constant) and not v.value:
             continue
+        folded = [c_ for e_ in [symex.expand(v, cs.env)] + [symex.expand(t_, cs.env) for t_, _ in cs.conds]
+                  for c_ in ast.walk(e_)
+                  if isinstance(c_, ast.Call) and call_name(c_) in ('lower', 'upper', 'casefold', 'normcase', 'swapcase')]
+        if folded:
+            return 'prefix', ('the containment test compares case-folded paths (%s): on a case-sensitive file '
+                              'system a sibling directory that differs only in case (thesis / Thesis) counts '
+                              'as inside' % short(folded[0], 40))
         sepfacts = set()
         pos_atoms = []
         for t, pol in cs.conds:
